@@ -1418,10 +1418,13 @@ class StateEngine(object):
             context["State"] = {"Name": None}
         current_state = context["State"].get("Name")
 
-        if not current_state:
+        if not current_state and "Branch" not in context["State"]:
             """
             If current_state is uninitialised it means we are the Start State.
             If so initialise unset context fields and start OpenTracing span.
+            (An event for a Branch or Iterator that has no StartAt has no
+            state name either, but must not start the execution all over
+            again: it fails the state lookup below instead.)
             """
             current_state = ASL["StartAt"]
             self.start_execution(state_machine, current_state, event)
